@@ -161,7 +161,10 @@ def V.tok (v : V) (t : String) : V :=
         v1.deliver { off := b'.top, key := k, val := none }
       else v.emit s!"w:{kind}:{k}:-"
     else { v with bad := true }
-  | ["w", "E"] => ({ v with b := v.b.apply .expireStream }).emit "w:E"
+  | ["w", "L", n] =>
+    match n.toNat? with
+    | some lo => ({ v with b := v.b.apply (.trimTo lo) }).emit s!"w:L:{(v.b.apply (.trimTo lo)).lo}"
+    | none => { v with bad := true }
   | ["w", "C"] => ({ v with b := v.b.apply .clear, fresh := true }).emit "w:C"
   | ["w", "M"] => ({ v with b := v.b.apply .clear, fresh := true }).emit "w:M"
   | "q" :: "U" :: _ =>
